@@ -9,3 +9,5 @@ import SpoxModel.Props.C04
 #print axioms C04.least_enclosing_fixed_tree
 #print axioms C04.visit_spec
 #print axioms C04.visit_spec_inputs
+#print axioms C04.no_outer_leak
+#print axioms C04.leak_rejected
